@@ -83,6 +83,9 @@ class World:
         self.left.update(params.get("budget", {}))
         self.ended = False
         self.aps_seq = 0x30
+        from mc import leaks
+
+        self.futures_before = leaks.count_futures(app)
         for _ in range(params.get("seq_prior", 0)):     # an application that has already handed out this many sequence numbers:
             app.get_sequence()                          # the message tags of the run straddle the wrap of the 8-bit sequence
         for p in self.pkts:
@@ -490,9 +493,17 @@ class World:
         for p in self.pkts:
             if not p.task.done():
                 self.viol.append(f"{p.kind}: send_packet never finished")
-        n = len(self.app._pending)
+        pend = getattr(self.app, "_pending", None)
+        n = len(pend) if pend is not None and hasattr(pend, "__len__") else 0
         if n:
             self.viol.append(f"{n} request(s) remain in the pending table after every send_packet call ended")
+        else:
+            # whatever shape the book-keeping has: an entry of a request holds the future its confirmation resolves
+            from mc import leaks
+
+            extra = leaks.count_futures(self.app) - self.futures_before
+            if extra > 0:
+                self.viol.append(f"{extra} future(s) of finished requests are still referenced from the application's book-keeping after every send_packet call ended")
         # spacing of retries, from the request log
         for p in self.pkts:
             times = [tm for (name, owner, tm) in self.frames if owner == p.idx and name.startswith("send")]
